@@ -27,7 +27,11 @@ PROP = "C11"
 DOMAIN = "str"
 LEVEL = "proof"
 TECHNIQUE = "Coq invariant/refinement proof (StrProofs.v) + extracted-model/C differential correspondence"
-RULE = ("histories of 0..24 set/get steps on a string node generated from one PRNG with a shadow of (creation length, current "
+RULE = ("small-scope block first (kind small-scope, both tiers, no randomness): every history of <= 3 operations over a 19-symbol "
+        "alphabet (one symbol per branch of the setter: zero / shorter / equal-length-other-tail / 8 / 9 / longer length, "
+        "refused allocation, refused lengths, strlen-based setters, read, own-buffer sources) plus every history of 4 "
+        "operations (quick: 10-symbol sub-alphabet; thorough: all 19) from each of 5 creations; then "
+        "histories of 0..24 set/get steps on a string node generated from one PRNG with a shadow of (creation length, current "
         "length, storage class, contents) used only to aim lengths and own-buffer sources at the setter's case-split boundaries; a case is non-trivial when "
         "the storage class changed at least once or a setter failed; distinct = distinct script among those")
 TRUSTED = ["Coq 8.16.1 kernel (coqc), no axioms (Print Assumptions: closed under the global context)",
@@ -222,9 +226,97 @@ def pick_len(rng, cur, l0):
     return max(0, min(rng.choice(cands), 400))
 
 
+# ---------------------------------------------------------------- small-scope enumeration
+# Every history of <= 3 operations over a 19-symbol alphabet in which each symbol selects a
+# different branch of the setter, plus every history of 4 operations (quick: over a 10-symbol
+# sub-alphabet, thorough: over all 19), from each of 5 creations.  Values are prefixes of one pattern (embedded NUL at index 1, bytes >= 0x80,
+# escaped characters), so equal symbols set equal values and L3q differs from L3 only after
+# the NUL.  Symbols whose validity depends on the contents (own-buffer sources relative to the
+# current length) are instantiated against a shadow of the contents; a history in which the
+# shadow is unknown at that point (after a faulted setter) is dropped.
+SS_PAT = bytes.fromhex("6100ff2f41220a5c80626364")
+SS_CREATE = [("L-,0", b""), ("L6100ff,3", SS_PAT[:3]), ("L%s,8" % SS_PAT[:8].hex(), SS_PAT[:8]),
+             ("L%s,9" % SS_PAT[:9].hex(), SS_PAT[:9]), ("Z6162", b"ab")]
+SS_OPS = ["L0", "L2", "L3q", "L8", "L9", "L12",      # zero / shorter / same length, other tail / 8 / 9 / longer
+          "F9", "F12",                                # the same with the allocation refused
+          "Rneg", "Rbig",                             # refused lengths
+          "Zab0cd", "Z10", "Zempty",                  # strlen-based: cut at the NUL / longer / empty
+          "G",                                        # read only
+          "O00", "O01", "S0",                         # own buffer: truncate to 0 / to 1 (reads the NUL of "") / strlen
+          "Ogrow", "Osuf"]                            # own buffer: contents + NUL (grows) / suffix from 1 (overlaps)
+SS_OPS4 = ["L0", "L3q", "L9", "L12", "F12", "Rneg", "Zab0cd", "O00", "Ogrow", "Osuf"]
+SS_Z10 = b"0123456789"
+
+
+def ss_inst(sym, sh):
+    """(token, contents afterwards | None when unknown) or None when the symbol cannot be
+    instantiated against the shadow sh (None = unknown)"""
+    if sym[0] == "L":
+        v = bytes.fromhex("61007e") if sym == "L3q" else SS_PAT[:int(sym[1:])]
+        return "l%s,%d" % (hexs(v), len(v)), v
+    if sym[0] == "F":
+        k = int(sym[1:])
+        return "l%s,%d!0" % (SS_PAT[:k].hex(), k), None
+    if sym == "Rneg":
+        return "l61,-1", sh
+    if sym == "Rbig":
+        return "l61,%d" % (INT_MAX - 1), sh
+    if sym == "Zab0cd":
+        return "z6162006364", b"ab"
+    if sym == "Z10":
+        return "z" + SS_Z10.hex(), SS_Z10
+    if sym == "Zempty":
+        return "z-", b""
+    if sym == "G":
+        return "g", sh
+    if sym == "O00":
+        return "o0,0", b""
+    if sym == "O01":
+        return "o0,1", None if sh is None else (sh + b"\0")[:1]
+    if sym == "S0":
+        return "s0", None if sh is None else sh[:own_strlen(sh, 0)]
+    if sh is None:
+        return None
+    if sym == "Ogrow":
+        return "o0,%d" % (len(sh) + 1), sh + b"\0"
+    if sym == "Osuf":
+        if len(sh) < 2:
+            return None
+        return "o1,%d" % (len(sh) - 1), sh[1:]
+    raise ValueError(sym)
+
+
+def gen_small_scope(tier):
+    import itertools
+    out = []
+    plans = [(SS_OPS, d) for d in (0, 1, 2, 3)]
+    plans.append((SS_OPS4 if tier == "quick" else SS_OPS, 4))
+    for create, sh0 in SS_CREATE:
+        for alphabet, depth in plans:
+            for seq in itertools.product(alphabet, repeat=depth):
+                sh, toks = sh0, []
+                for sym in seq:
+                    r = ss_inst(sym, sh)
+                    if r is None:
+                        toks = None
+                        break
+                    toks.append(r[0])
+                    sh = r[1]
+                if toks is None:
+                    continue
+                line = "str 0 %s" % create
+                if toks:
+                    line += " " + ";".join(toks)
+                out.append((line, {"kind": "small-scope"}))
+    # the two creation failures
+    out.append(("str 0 L61,-1", {"kind": "small-scope"}))
+    out.append(("str 0 L6100ff,3!0", {"kind": "small-scope"}))
+    return out
+
+
 def gen(rng, tier):
     n = 3000 if tier == "quick" else 60000
-    out = []
+    out = gen_small_scope(tier)
     for ci in range(n):
         if rng.random() < 0.2:
             out.append(gen_near(rng))
